@@ -1,16 +1,17 @@
 /*@unit {
  'kind': 'bounded', 'mode': 'plain', 'solver': 'kissat',
- 'bound': 'pool of 6 nodes (any partition into well-formed rings: one list head with <= 5 elements, two lists, singleton rings), one operation with symbolic arguments, unwind 8',
+ 'bound': 'pool of 5 nodes (6 in the thorough tier), any partition into well-formed rings (one list head with <= 4 elements, two lists, singleton rings), one operation with symbolic arguments; unwind 8 is complete for these sizes (unwinding assertions)',
  'functions': ['dlist_add_next', 'dlist_add_prev', 'dlist_del', 'dlist_del_init', 'dlist_move', 'dlist_move_tail', 'dlist_insert_instead',
                'dlist_move_sorted', 'dlist_size', 'dlist_size_reversed', 'dlist_in', 'dlist_check', 'dlist_check_reversed', 'dlist_is_correct',
                'dlist_empty', 'dlist_for_each', 'dlist_for_each_reverse', 'dlist_for_each_entry', 'dlist_for_each_entry_reverse',
                'dlist_first_entry', 'dlist_last_entry', 'dlist_next_entry', 'dlist_prev_entry', 'dlist_entry', 'mcast_out'],
  'clauses': 'sequence level: after one real operation the real dlist_for_each / dlist_for_each_entry from any observer node yields exactly the sequence of a reference array list (insert after/before, erase, splice, replace, sorted insert with an uninterpreted comparator), the reverse macros yield its reverse, dlist_size, dlist_size_reversed, dlist_check(_reversed), dlist_is_correct, dlist_empty and dlist_in agree with it',
- 'params': {'OP': [0, 1, 2, 3, 4, 5, 6, 7]},
+ 'params': {'OP': [0, 1, 2, 3, 4, 5, 6, 7], 'C01_K': [5]},
+ 'params_thorough': {'C01_K': [5, 6]},
  'unwind': 8,
  'kf': ['C01_dlist_move_self'],
  'kf_probe_case': {'C01_dlist_move_self': {'OP': 4}},
- 'defines': ['C01_ENTRY', 'C01_K=6'],
+ 'defines': ['C01_ENTRY'],
  'assumptions': ['dlist_add*: lnk is not a member of a ring other than its own singleton ring (no other ring member points at it) - inserting a still-linked node is the documented misuse of the C API; re-insertion of linked nodes is covered by dlist_move*',
                  'sequence-level units: the observer node (list head) is not the node being inserted / moved (every ring that contains another node is observed from that node; singleton rings are checked by the local units)'],
  'witness': {'unwind': 8},
@@ -35,7 +36,7 @@ static int c01_cmp(struct c01_entry *added, struct c01_entry *pos)
     (void)added;
     return (g_cmpmask >> c01_idx(&pos->lnk)) & 1;
 }
-static void c01_move_sorted(struct c01_entry *added, struct dlist_head *head)
+C01_NO_UBSAN_NULL static void c01_move_sorted(struct c01_entry *added, struct dlist_head *head)
 {
     dlist_move_sorted(added, head, lnk, c01_cmp);
 }
@@ -97,7 +98,7 @@ static void ref_insert_before(struct ref *r, uchar h, uchar y, uchar v)
         ref_insert(r, ref_find(r, y), v);
 }
 
-void harness(void)
+C01_NO_UBSAN_NULL void harness(void)
 {
     WIT_ARR(uchar, nx, C01_K);
     WIT_ARR(uchar, pv, C01_K);
@@ -107,6 +108,7 @@ void harness(void)
     WIT(uchar, m);   /* membership probe */
     WIT(uint, cmpmask);
     WIT(int, count);
+    __CPROVER_assume(count >= 0);
     C01_POOL(nx, pv);
     g_cmpmask = cmpmask;
     __CPROVER_assume(VALID0(x) && VALID0(y) && VALID0(h) && VALID0(m));
@@ -200,7 +202,6 @@ void harness(void)
     __CPROVER_assert((dlist_empty(H) != 0) == (r.len == 0), "dlist_empty agrees with the reference list");
     __CPROVER_assert((dlist_in(N_(m), H) != 0) == (ref_find(&r, m) >= 0), "dlist_in agrees with the reference list");
     /* dlist_check(fnd, count): number of other nodes in the ring, or -1 when count steps do not close it */
-    __CPROVER_assume(count >= 0);
     __CPROVER_assert(dlist_check(H, count) == (count > r.len ? r.len : -1), "dlist_check agrees with the reference list");
     __CPROVER_assert(dlist_check_reversed(H, count) == (count > r.len ? r.len : -1), "dlist_check_reversed agrees with the reference list");
     __CPROVER_assert(dlist_is_correct(H), "dlist_is_correct holds");
